@@ -87,12 +87,23 @@ PANIC_REVIEWED = {(short_fn(k[0]), k[1]): v for k, v in PANIC_REVIEWED.items()}
 
 
 def family(f, b):
-    """b and its closures (transitively)"""
+    """b and its closures (transitively; those of helpers spliced into it included)"""
     out = [b]
-    for c in f.body_list:
-        if c.id.startswith(b.id + '::{closure#'):
+    for c in f.closures_of(b):
+        if c is not b:
             out.append(c)
     return out
+
+
+def reads_visited_table(cb):
+    """a callable unit that consults a per-node visited / in-progress table (a guard: kept as a unit of its own when
+    it is a new helper, so that its result is recognised as the guard's answer at the call sites)"""
+    for cbb, ct in cb.calls():
+        if call_matches(ct, ['Index::index', 'IndexMut::index_mut', 'index::Index>::index', 'index::IndexMut>::index_mut',
+                             'slice::<impl [T]>::get', 'slice::<impl [T]>::get_mut']):
+            if visited_state_origin(cb, origin(cb, ct['args'][0])):
+                return True
+    return False
 
 
 STATE_TYPES = ('alloc::vec::Vec<bool>', '&mut alloc::vec::Vec<bool>', '[core::cell::Cell<u64>]', "&'a [core::cell::Cell<u64>]")
@@ -184,6 +195,7 @@ def run(ctx):
     for b in scope:
         if b.j['kind'] == 'closure':
             continue
+        b, _units = f.with_units(b, reads_visited_table)
         fam = family(f, b)
         sites = []
         for x in fam:
